@@ -386,6 +386,42 @@ class Ptr(object):
         self.poison = poison if poison is not None else z3.BoolVal(False)
 
 
+_ZERO8 = z3.BitVecVal(0, 8)
+
+
+class LazyBytes(list):
+    """uninitialised memory: every byte is an arbitrary value, created when it is first looked at"""
+
+    def __init__(self, name, n):
+        list.__init__(self, [None] * n)
+        self.name = name
+
+    def _mat(self, k):
+        v = list.__getitem__(self, k)
+        if v is None:
+            v = z3.BitVec('%s_b%d' % (self.name, k), 8)
+            list.__setitem__(self, k, v)
+        return v
+
+    def __getitem__(self, k):
+        if isinstance(k, slice):
+            return [self._mat(i) for i in range(*k.indices(len(self)))]
+        if k < 0:
+            k += len(self)
+        return self._mat(k)
+
+    def __iter__(self):
+        return (self._mat(i) for i in range(len(self)))
+
+
+class PtrCell(object):
+    """one byte of a pointer stored in byte memory (pointers are not given numeric values)"""
+    __slots__ = ('ptr', 'k')
+
+    def __init__(self, ptr, k):
+        self.ptr, self.k = ptr, k
+
+
 def _or(*ps):
     ps = [p for p in ps if not z3.is_false(p)]
     if not ps:
@@ -413,18 +449,44 @@ class Interp(object):
         self.events = []         # ('stdout', fn) / ('stderr', fn)
         self.ub = []             # names of UB obligations already emitted on this path
         self.called = set()
+        self.freed = set()
+        self.defer_ub = False     # True: require() collects, flush_ub() discharges
+        self.pending_ub = []
+        self.nheap = 0
         self.on_stdout = None     # callback(fname): the code writes to stdout on this path
 
     # ---- undefined behaviour -------------------------------------------------------------------
     def require(self, cond, what):
         """`cond` (z3 Bool) must hold on every input of this path, else the C code has undefined behaviour."""
+        if z3.is_not(cond) and z3.is_false(cond.arg(0)):
+            return
         cond = z3.simplify(cond)
         if z3.is_true(cond):
+            return
+        if self.defer_ub and not z3.is_false(cond):
+            # discharged in one query by flush_ub() (end of the path / before an observation)
+            self.pending_ub.append((cond, what))
             return
         r = self.eng.oblige('no-undefined-behaviour', cond, dict(what=what))
         if r is not None:
             # continue on the defined part only
             self.eng.assume(cond)
+
+    def flush_ub(self):
+        """discharge the deferred no-UB conditions of this path (one query; on failure each one is tried to name it)"""
+        pend, self.pending_ub = self.pending_ub, []
+        if not pend:
+            return
+        r = self.eng.oblige('no-undefined-behaviour', z3.And(*[c for c, _ in pend]), dict(what="; ".join(sorted(set(w for _, w in pend)))[:300]))
+        if r is None or r == 'inconclusive':
+            return
+        # name the failing condition(s): replace the summary record by individual ones
+        self.eng.path_out.pop()
+        self.eng.stats['obligations'] -= 1
+        self.eng.stats['violated'] -= 1
+        for c, w in pend:
+            if self.eng.oblige('no-undefined-behaviour', c, dict(what=w)) is not None:
+                self.eng.assume(c)
 
     # ---- operands ------------------------------------------------------------------------------
     def operand(self, ty, txt, env):
@@ -521,6 +583,9 @@ class Interp(object):
 
     # ---- memory --------------------------------------------------------------------------------
     def region_bytes(self, region):
+        if region in self.freed:
+            self.require(z3.BoolVal(False), "use of freed memory %s" % region)
+            raise Abort("use after free")
         if region in self.mem:
             return self.mem[region]
         g = self.m.globals.get(region)
@@ -563,7 +628,8 @@ class Interp(object):
             o = ptr.off
             lim = len(data) - n
             self.require(z3.ULE(o, z3.BitVecVal(lim, 64)), "load out of the bounds of %s" % ptr.region)
-            if n != 1 and not all(z3.is_bv_value(b) for b in data):
+            if any(isinstance(b, PtrCell) for b in list.__iter__(data)) or len(data) > 4096 or \
+                    (len(data) > 64 and n != 1 and not all(z3.is_bv_value(b) for b in data)):
                 # fork over the feasible offsets
                 off = self.concretize(o)
             else:
@@ -579,17 +645,28 @@ class Interp(object):
 
     @staticmethod
     def _bytes_to_bv(bs):
+        if any(isinstance(b, PtrCell) for b in bs):
+            return bs
         if len(bs) == 1:
             return bs[0]
         return z3.Concat(*reversed(bs))
 
     def _from_bv(self, ty, bv):
+        if isinstance(bv, list):
+            # the bytes hold (part of) a stored pointer
+            if ty[0] == 'ptr' and len(bv) == 8 and all(isinstance(b, PtrCell) and b.k == k and b.ptr is bv[0].ptr
+                                                       for k, b in enumerate(bv)):
+                return bv[0].ptr
+            raise Unsupported("read of pointer bytes as %r" % (ty,))
         if ty[0] == 'i':
             if bv.size() > ty[1]:
                 bv = z3.Extract(ty[1] - 1, 0, bv)
             return Val(z3.simplify(bv))
         if ty[0] == 'ptr':
-            raise Unsupported("load of a pointer from byte memory")
+            v = z3.simplify(bv)
+            if z3.is_bv_value(v) and v.as_long() == 0:
+                return Ptr(None, 0)
+            raise Unsupported("load of a pointer from bytes that do not hold one")
         raise Unsupported("load of %r" % (ty,))
 
     def store(self, ty, val, ptr):
@@ -605,10 +682,32 @@ class Interp(object):
             o = ptr.off
             lim = len(data) - n
             self.require(z3.ULE(o, z3.BitVecVal(lim, 64)), "store out of the bounds of %s" % ptr.region)
+            if ty[0] == 'i' and len(data) <= 64 and not any(isinstance(b, PtrCell) for b in list.__iter__(data)):
+                # store at a symbolic offset of a small plain region: conditional update of every byte, no fork
+                self.require(z3.Not(val.poison), "store of a poison value")
+                bv = val.bv
+                if bv.size() < 8 * n:
+                    bv = z3.ZeroExt(8 * n - bv.size(), bv)
+                for j in range(len(data)):
+                    e = data[j]
+                    for k in range(n):
+                        if 0 <= j - k <= lim:
+                            e = z3.If(o == z3.BitVecVal(j - k, 64), z3.Extract(8 * k + 7, 8 * k, bv), e)
+                    data[j] = z3.simplify(e)
+                return
             off = self.concretize(o)
         if off < 0 or off + n > len(data):
             self.require(z3.BoolVal(False), "store of %d bytes at offset %d of %s (%d bytes)" % (n, off, ptr.region, len(data)))
             raise Abort("out of bounds")
+        if ty[0] == 'ptr':
+            self.require(z3.Not(val.poison), "store of a poison pointer")
+            if val.region is None:
+                for k in range(8):
+                    data[off + k] = z3.BitVecVal(0, 8)
+            else:
+                for k in range(8):
+                    data[off + k] = PtrCell(val, k)
+            return
         if ty[0] != 'i':
             raise Unsupported("store of %r" % (ty,))
         bv = val.bv
@@ -696,6 +795,8 @@ class Interp(object):
             raise Abort(fname)
         if fname in ('sscanf', '__isoc99_sscanf'):
             return self.sscanf(args)
+        if fname in ('malloc', 'calloc', 'realloc', 'free', 'strlen', 'strcpy', 'memmove', 'memcpy', 'memset'):
+            return getattr(self, 'libc_' + fname)(args)
         if fname in STDOUT_WRITERS:
             self.events.append(('stdout', fname))
             if self.on_stdout is not None:
@@ -709,6 +810,80 @@ class Interp(object):
                 self.on_stdout("%s(%s)" % (fname, which))
             return Val(z3.BitVecVal(0, 64 if fname == 'fwrite' else 32))
         raise Unsupported("call to external function %s" % fname)
+
+    # ---- heap: allocation always succeeds (NULL returns are outside the model); sizes must be concrete per path
+    def _size(self, v, what):
+        x = z3.simplify(v.bv)
+        if z3.is_bv_value(x):
+            return x.as_long()
+        self.require(z3.Not(v.poison), "%s with a poison size" % what)
+        return self.concretize(x) & ((1 << x.size()) - 1)
+
+    def new_region(self, n, zero=False, tag='heap'):
+        self.nheap += 1
+        name = '%s%d' % (tag, self.nheap)
+        self.mem[name] = [_ZERO8] * n if zero else LazyBytes(name, n)
+        return Ptr(name, 0)
+
+    def libc_malloc(self, args):
+        n = self._size(args[0], 'malloc')
+        if n > (1 << 20):
+            raise Unsupported("malloc(%d)" % n)
+        return self.new_region(n)
+
+    def libc_calloc(self, args):
+        n = self._size(args[0], 'calloc') * self._size(args[1], 'calloc')
+        if n > (1 << 20):
+            raise Unsupported("calloc(%d)" % n)
+        return self.new_region(n, zero=True)
+
+    def libc_free(self, args):
+        p = args[0]
+        if p.region is None:
+            return None
+        if p.region in self.freed:
+            self.require(z3.BoolVal(False), "double free of %s" % p.region)
+            raise Abort("double free")
+        off = self.concrete_off(p, 0, 'free')
+        if off != 0 or not p.region.startswith('heap'):
+            self.require(z3.BoolVal(False), "free of a pointer that malloc did not return (%s+%r)" % (p.region, off))
+            raise Abort("bad free")
+        self.freed.add(p.region)
+        return None
+
+    def libc_realloc(self, args):
+        p = args[0]
+        n = self._size(args[1], 'realloc')
+        if n > (1 << 20):
+            raise Unsupported("realloc(%d)" % n)
+        q = self.new_region(n)
+        if p.region is not None:
+            old = self.region_bytes(p.region)
+            k = min(len(old), n)
+            self.mem[q.region][:k] = list(old[:k])
+            self.libc_free([p])
+        return q
+
+    def libc_strlen(self, args):
+        return Val(z3.BitVecVal(len(self.c_string(args[0])), 64))
+
+    def libc_strcpy(self, args):
+        txt = self.c_string(args[1])
+        for k, ch in enumerate(txt + chr(0)):
+            self.store(('i', 8), Val(z3.BitVecVal(ord(ch), 8)), Ptr(args[0].region, self._addoff(args[0].off, z3.BitVecVal(k, 64), 1)))
+        return args[0]
+
+    def libc_memmove(self, args):
+        self.intrinsic('llvm.memmove', [args[0], args[1], args[2]])
+        return args[0]
+
+    def libc_memcpy(self, args):
+        self.intrinsic('llvm.memcpy', [args[0], args[1], args[2]])
+        return args[0]
+
+    def libc_memset(self, args):
+        self.intrinsic('llvm.memset', [args[0], args[1], args[2]])
+        return args[0]
 
     def sscanf(self, args):
         """sscanf(str, "%8x" | "%4hx" | "%2hhx", &out) on a constant string at a concrete offset (bignum_from_string)"""
@@ -803,14 +978,15 @@ class Interp(object):
             return None
         if base == 'memcpy' or base == 'memmove':
             dst, src, n = args[0], args[1], args[2]
-            nv = z3.simplify(n.bv)
-            if not z3.is_bv_value(nv):
-                raise Unsupported("memcpy with symbolic length")
-            cnt = nv.as_long()
+            cnt = self._size(n, 'memcpy')
+            if cnt == 0:
+                return None
             so = self.concrete_off(src, cnt, 'memcpy')
             do = self.concrete_off(dst, cnt, 'memcpy')
-            if so is None or do is None:
-                raise Unsupported("memcpy with symbolic address")
+            if so is None:
+                so = self.concretize(src.off)
+            if do is None:
+                do = self.concretize(dst.off)
             sdata = self.region_bytes(src.region)
             if dst.region not in self.mem:
                 self.region_bytes(dst.region)
